@@ -136,6 +136,7 @@ type Gen struct {
 	replay *replayInfo
 	assumedIdx []int
 	firedAnchors map[string]bool
+	ncallFresh int
 }
 
 func newGen(w *World, fn *ssa.Function, c *Contract) *Gen {
@@ -1011,6 +1012,16 @@ func (g *Gen) arith(op token.Token, a, b string, t, yt, rt types.Type, ob bool) 
 				}
 				return fmt.Sprintf("(div %s %s)", a, pow2(int(k)))
 			}
+			// shift by a variable count: x << n == wrap(x * 2^n), x >> n == floor(x / 2^n), with the
+			// uninterpreted pow2 the specifications use; a negative signed count panics in Go
+			g.needPow2()
+			if isSigned(yt) && ob {
+				g.safety("shift", fmt.Sprintf("(<= 0 %s)", b), "negative shift count")
+			}
+			if op == token.SHL {
+				return g.wrap(fmt.Sprintf("(* %s (pow2 %s))", a, b), rt)
+			}
+			return fmt.Sprintf("(div %s (pow2 %s))", a, b)
 		case token.AND:
 			// x & (2^k-1)
 			if k, ok := parseBigInt(b); ok {
@@ -1019,6 +1030,20 @@ func (g *Gen) arith(op token.Token, a, b string, t, yt, rt types.Type, ob bool) 
 					return fmt.Sprintf("(mod %s %s)", a, k1.String())
 				}
 			}
+		}
+		// bitwise operators on mathematical integers: uninterpreted functions over the infinite
+		// two's-complement representation (the same functions the specifications use). For operands
+		// within a machine type's range the machine operation IS that function (signed types; unsigned
+		// types likewise for and/or/xor of non-negative values).
+		switch op {
+		case token.AND, token.OR, token.XOR:
+			fn := map[token.Token]string{token.AND: "bitand", token.OR: "bitor", token.XOR: "bitxor"}[op]
+			g.needBitFns()
+			r := g.define("bitop", "Int", fmt.Sprintf("(%s %s %s)", fn, a, b))
+			if c := g.typeInv(r, rt, false); c != "true" {
+				g.assumeAlways(c)
+			}
+			return r
 		}
 	}
 	g.note("opaque arithmetic %s in %s mode", op, map[bool]string{true: "bv", false: "int"}[g.bv])
